@@ -101,6 +101,26 @@ class Run(object):
             if 'use_poll' in scn:
                 kw['use_poll'] = scn['use_poll']
             child = T.SimFdSpawn(fd, **kw)
+        elif tr == 'fd' and scn.get('fd_kind') == 'tty':
+            # the application opened a terminal device itself (a serial line, the master side of a pty it manages) and
+            # set it up the way pyserial does -- non-canonical, VMIN 0 -- before handing the descriptor to fdspawn
+            import termios as _t
+            pty = k.pty(out_cap=cap, eof_flavour=scn.get('eof_flavour', 'empty'))
+            self.pty = pty
+            pty.attr[1] &= ~OPOST
+            pty.attr[3] &= ~(ICANON | ECHO | ISIG)
+            pty.attr[6] = list(pty.attr[6])
+            pty.attr[6][_t.VMIN] = 0
+            pty.attr[6][_t.VTIME] = 0
+            fd = k.alloc_fd(PtyMaster(pty))
+            slave = PtySlave(pty)
+            self.peer = peers.Actor(w, k, None, peers.writer(slave, [st for st in steps if st.get('op', 'w') in ('w', 'close', 'pause')],
+                                                             self.wrote), react, 'peer')
+            self.peer.start(0)
+            if 'use_poll' in scn:
+                kw['use_poll'] = scn['use_poll']
+            child = T.SimFdSpawn(fd, **kw)
+            w.probe('fdspawn_on_a_terminal_device')
         elif tr == 'fd':
             r, wr = k.pipe(cap)
             self.fd_pipe = r
@@ -201,7 +221,7 @@ class Run(object):
             """Kernel truth at call entry: the peer has ended the stream and nothing is left unread (None: not known)."""
             try:
                 tr = run.scn.get('transport')
-                if tr in ('pty', 'pxssh') and getattr(run, 'pty', None) is not None:
+                if (tr in ('pty', 'pxssh') or run.scn.get('fd_kind') == 'tty') and getattr(run, 'pty', None) is not None:
                     return bool(run.pty.hung_up() and not run.pty.out)
                 if tr == 'fd' and getattr(run, 'fd_pipe', None) is not None:
                     return bool(run.fd_pipe.p.writers == 0 and not run.fd_pipe.p.buf)
